@@ -61,6 +61,8 @@ type Frame struct {
 	caller   *Frame
 	resNames []string
 	curPos   token.Pos
+	blockEnds []token.Pos
+	nextBlock int
 }
 
 // ---------- CFG analysis ----------
